@@ -147,13 +147,35 @@ Proof. apply tcp_server_framed. Qed.
 Lemma top_tcp_server_id x idle svc r : tcp_server x idle svc = Ok (Some r) -> m_id r = x_id x.
 Proof. apply tcp_server_id. Qed.
 
-(* the receive buffer: what is parsed once only the received octets are *)
-Lemma top_dgram_received_only : dgram_parses_whole_buffer = false ->
-  forall d x, xreq_of_datagram d = Some x -> 12 + qs_len (x_qs x) <= len d.
-Proof. unfold xreq_of_datagram, dgram_buffer. intros ->. exact dgram_received_only. Qed.
+(* the receive buffer: only the received octets are parsed (fix 3a255a9; the flag
+   is read by T1, [reflexivity] fails if the whole buffer is parsed again) *)
+Lemma top_dgram_received_only d x : xreq_of_datagram d = Some x -> 12 + qs_len (x_qs x) <= len d.
+Proof.
+  assert (F : dgram_parses_whole_buffer = false) by reflexivity.
+  unfold xreq_of_datagram, dgram_buffer. rewrite F. apply dgram_received_only.
+Qed.
 
-Lemma top_dgram_padding_refuted : dgram_parses_whole_buffer = true ->
-  exists x r, xreq_of_datagram pad_datagram = Some x /\ cnt (x_qs x) = 202 /\
-    udp_server x (Some 1232) (SvcOk (mk_response (x_base x) 144 0 1 15 0 11 None)) = Ok (Some r) /\
-    len pad_datagram = 12 /\ 512 <= mlen r.
-Proof. unfold xreq_of_datagram, dgram_buffer, udp_server. intros ->. apply dgram_padding_refuted_gen. Qed.
+(* values T1 reads from the source that the model has as shapes rather than as
+   numbers: the two-octet big-endian prefix on both sides of the stream, header
+   octet 2 carrying TC, the default response queue length the harness assumes,
+   REFUSED as the fourth ServiceError rcode *)
+Lemma t1_shape_constants :
+  frame_len_octets = 2 /\ frame_big_endian = true /\ shim_len = 2 /\ shim_big_endian = true /\
+  tc_octet = 2 /\ tc_bit = 1 /\ header_len = 12 /\ max_queued_default = 10 /\ rc_refused = 5 /\
+  stream_short_msg_disconnects = true /\ qr_request_gets_formerr = true /\
+  frame_prefix_read_exact = true /\ stream_full_queue_retries = true /\ svc_error_bypasses_middleware = true.
+Proof. repeat split; reflexivity. Qed.
+
+(* the cookies middleware's own rejections (malformed COOKIE, denied address without cookie) *)
+Lemma top_cookie_reject_refuted : cookie_reject_echoes_question = false ->
+  forall rq cfg k r, hint_ok cfg -> cookie_reject_response rq cfg k = Ok r ->
+  m_id r = rq_id rq /\ m_qs r = [].
+Proof. unfold cookie_reject_response. intros ->. intros rq cfg k r. apply cookie_reject_no_question. Qed.
+
+Lemma top_cookie_reject_echo : cookie_reject_echoes_question = true ->
+  forall rq cfg k r, hint_ok cfg -> Forall wf_q (firstn 1 (rq_qs rq)) ->
+  cookie_reject_response rq cfg k = Ok r ->
+  m_id r = rq_id rq /\ m_qs r = firstn 1 (rq_qs rq) /\ mlen r <= 282.
+Proof.
+  unfold cookie_reject_response. intros ->. rewrite eq_true. intros rq cfg k r. apply cookie_reject_echo.
+Qed.
